@@ -1,13 +1,15 @@
 #!/usr/bin/env python3
 """resolve git conflict markers by keeping both sides (ours first), dropping exact duplicate lines inside the region"""
 import sys
+DEDUP = "--dedup" in sys.argv
+sys.argv = [a for a in sys.argv if a != "--dedup"]
 for p in sys.argv[1:]:
     out, side, seen = [], None, set()
     for l in open(p):
         if l.startswith("<<<<<<< "): side = "ours"; seen = set(); continue
         if l.startswith("=======") and side: side = "theirs"; continue
         if l.startswith(">>>>>>> ") and side: side = None; continue
-        if side:
+        if side and DEDUP:
             if l in seen: continue
             seen.add(l)
         out.append(l)
